@@ -429,5 +429,62 @@ def slice_pool(name, docs, rnd, limit=60):
     return out
 
 
+def frontier_slices(name, docs, rnd, limit=30):
+    """slices that start at the very end (or end at the very start) of a nested node's content and reach into a later
+    (earlier) top-level child: the first (last) node of the slice is then a chain of emptied nodes, followed by more
+    content - the shape in which the fitter must decide how much required content to fill in behind the open start"""
+    S, O = schema(name)
+
+    def nesting(n):
+        return 0 if n.is_text or n.is_leaf else 1 + max([nesting(n.child(i)) for i in range(n.child_count)] or [0])
+
+    # two-child documents paired up from the deeply nested top-level children of the corpus: both ends of a slice
+    # across the pair can then be open several levels
+    tops = {}
+    for d in docs:
+        for i in range(d.child_count):
+            c = d.child(i)
+            if nesting(c) >= 2 and orc.node_size(c) <= 16:
+                tops.setdefault(str(c), c)
+    tops = list(tops.values())
+    rnd.shuffle(tops)
+    paired = []
+    for x in tops[:8]:
+        for y in tops[:8]:
+            dd = mk_node(S, O.top, [x, y])
+            if O.valid(dd) is None and orc.normal_form(dd):
+                paired.append(dd)
+    rnd.shuffle(paired)
+    seen = {}
+    for d in paired[:24] + list(docs):
+        ends, starts, deep = [], [], []
+        for pos in range(d.content.size + 1):
+            try:
+                rp = d.resolve(pos)
+            except Exception:  # noqa: BLE001
+                continue
+            if rp.depth >= 2 and rp.parent_offset == rp.parent.content.size:
+                ends.append((pos, rp.index(0)))
+            if rp.depth >= 2 and rp.parent_offset == 0:
+                starts.append((pos, rp.index(0)))
+            if rp.depth >= 1:
+                deep.append((pos, rp.index(0), rp.depth))
+        # both ends deep first (the other end open at least two levels as well), then the rest
+        both = [(a, b) for a, ia in ends for b, ib, db in deep if ib > ia and db >= 2] + [(a, b) for b, ib in starts for a, ia, da in deep if ia < ib and da >= 2]
+        rest = [(a, b) for a, ia in ends for b, ib, db in deep if ib > ia and db < 2] + [(a, b) for b, ib in starts for a, ia, da in deep if ia < ib and da < 2]
+        rnd.shuffle(both)
+        rnd.shuffle(rest)
+        for a, b in both[:8] + rest[:3]:
+            try:
+                sl = d.slice(a, b)
+            except Exception:  # noqa: BLE001
+                continue
+            k = json.dumps([frag_json(sl.content), sl.open_start, sl.open_end], sort_keys=True, default=str)
+            seen.setdefault(k, sl)
+    out = list(seen.values())
+    rnd.shuffle(out)
+    return out[:limit]
+
+
 def slice_json(s):
     return {"content": frag_json(s.content), "openStart": s.open_start, "openEnd": s.open_end}
